@@ -10,6 +10,7 @@ import MoreExec.Model.Poll
 import MoreExec.Model.CancelOnShutdown
 import MoreExec.Model.Shutdown
 import MoreExec.Model.MeFuture
+import MoreExec.Model.WakeProto
 
 namespace Driver.Replay
 
@@ -240,5 +241,37 @@ def stepLine (s : St) (ws : List String) : Option St :=
 def run (lines : Array String) : String :=
   runActs (fun s ws => stepLine s ws) (fun ws => some ws) describe init lines
 end MeFuture
+
+namespace Wake
+open MoreExec.WakeProto
+
+def describe (s : St) : String := s!"now={s.now} items={s.items} flag={s.flag} pendingSet={s.pendingSet} wpc={repr s.wpc}"
+
+/-- `waitE <timeout>` also checks the time-out the real worker used against the model's wake-up time;
+`rescan`: the worker handled a due item and loops without waiting -/
+def stepLine (s : St) (ws : List String) : Option St :=
+  match ws with
+  | ["add", i, d] => step s (.add (nat! i) (nat! d))
+  | ["setE"] => step s .setE
+  | ["remove", i] => step s (.remove (nat! i))
+  | ["scan"] => step s .scan
+  | ["rescan"] => match s.wpc with | .wait _ => some { s with wpc := .scan } | .scan => some s | _ => none
+  | ["waitE", t] =>
+      match s.wpc with
+      | .wait w =>
+          let ok := match w, t with
+            | none, "None" => true
+            | some x, "None" => false && x == 0
+            | none, _ => false
+            | some x, tt => x - s.now == nat! tt && decide (s.now < x)
+          if ok then step s .waitE else none
+      | _ => none
+  | ["wake"] => step s .wake
+  | ["clearE"] => step s .clearE
+  | ["tick", t] => if nat! t == s.now then some s else step s (.tick (nat! t))
+  | _ => none
+
+def run (lines : Array String) : String := runActs (fun s ws => stepLine s ws) (fun ws => some ws) describe init lines
+end Wake
 
 end Driver.Replay
